@@ -203,6 +203,54 @@ def derived_basis_predicates(c, o):
     return out
 
 
+def identifier_subset_predicates(c, o):
+    """error_transfer_matrix / cumulant function / decay amplitudes / infidelity with n_oper_identifiers given as a sorted
+    list, a non-sorted list and a single string: the result for the selection is the slice of the result for all sources,
+    and ETM = expm(sum of the SELECTED cumulant functions) recomputed independently"""
+    p, om, S, shape, second = c['p'], c['om'], c['S'], c['shape'], c['second']
+    ids_all = list(p.n_oper_identifiers)
+    nn = len(ids_all)
+    out = []
+    rs = np.random.default_rng(nn * 1000 + len(om) + int(second))
+    k = int(rs.integers(1, nn + 1))
+    sub = sorted(rs.permutation(nn)[:k].tolist())
+    sels = [('sorted list', [ids_all[i] for i in sub], np.array(sub)),
+            ('non-sorted list', [ids_all[i] for i in sub[::-1]] if k > 1 else [ids_all[i] for i in range(nn)][::-1],
+             np.array(sub[::-1] if k > 1 else list(range(nn))[::-1])),
+            ('single string', ids_all[int(rs.integers(0, nn))], None)]
+    Kfull, Gfull = o['K'], o['G']
+    with warnings.catch_warnings():
+        warnings.simplefilter('ignore')
+        Ifull = ff.infidelity(gen.fresh(p), S, om)
+        for name, sel, idx in sels:
+            if idx is None:
+                idx = np.array([ids_all.index(sel)])
+            Ssel = S if shape == 1 else (S[idx] if shape == 2 else S[idx[:, None], idx])
+            sl = (lambda A: A[idx]) if shape < 3 else (lambda A: A[idx[:, None], idx])
+            Kref = sl(Kfull)
+            Eref = sla.expm(Kref.sum(axis=tuple(range(Kref.ndim - 2))))
+            try:
+                E = ff.error_transfer_matrix(gen.fresh(p), Ssel, om, n_oper_identifiers=sel, second_order=second)
+            except Exception as exc:      # noqa: a selection that the other functions accept must not be rejected here
+                out.append(('error transfer matrix of a selection', 'c09-etm-identifier-selection',
+                            'error_transfer_matrix(n_oper_identifiers=%r as %s) raises %r' % (sel, name, exc)))
+                continue
+            if np.abs(E - Eref).max() > 1e-9 * max(1.0, np.abs(Eref).max()):
+                out.append(('error transfer matrix of a selection', 'c09-etm-identifier-selection',
+                            'error_transfer_matrix(n_oper_identifiers=%r as %s, second_order=%s) != expm(sum of the selected cumulant '
+                            'functions): %.3g' % (sel, name, second, np.abs(E - Eref).max())))
+            K = numeric.calculate_cumulant_function(gen.fresh(p), Ssel, om, n_oper_identifiers=sel, second_order=second)
+            G = numeric.calculate_decay_amplitudes(gen.fresh(p), Ssel, om, n_oper_identifiers=sel)
+            I = ff.infidelity(gen.fresh(p), Ssel, om, n_oper_identifiers=sel)
+            sc = max(np.abs(Kfull).max(), 1e-300)
+            if (K.shape != Kref.shape or np.abs(K - Kref).max() > 1e-11 * sc or np.abs(G - sl(Gfull)).max() > 1e-11 * max(np.abs(Gfull).max(), 1e-300)
+                    or np.abs(I - sl(Ifull)).max() > 1e-11 * max(np.abs(Ifull).max(), 1e-300)):
+                out.append(('identifier selection', 'c09-identifier-selection',
+                            'cumulant function / decay amplitudes / infidelity with n_oper_identifiers=%r (%s) are not the slice of the full result'
+                            % (sel, name)))
+    return out
+
+
 def predicates(c, o):
     p, shape = c['p'], c['shape']
     d = p.d
@@ -246,6 +294,8 @@ def predicates(c, o):
     # copying must not serve stale traces: K_B follows the formula and K_B = P K_A P^T for the permutation P
     if not c['pc']:
         for sig_det in derived_basis_predicates(c, o):
+            bad.append(sig_det)
+        for sig_det in identifier_subset_predicates(c, o):
             bad.append(sig_det)
     # physicality of the package's own error transfer matrix
     E = o['E']
